@@ -44,18 +44,18 @@ type scenario struct {
 var scenarios = []scenario{
 	{Name: "insert||confirms", Prefix: []string{"ins a1"}, Threads: [][]string{{"ins a2"}, {"cf a1 1"}}, BoundQuick: 2, BoundThor: 3, ShardsQuick: 4, ShardsThor: 8},
 	{Name: "siblings", Prefix: []string{"ins a1"}, Threads: [][]string{{"ins a2"}, {"ins a2x"}}, BoundQuick: 2, BoundThor: 3, ShardsQuick: 1, ShardsThor: 3},
-	{Name: "mine||insert", Prefix: []string{"pool", "ins a1"}, Threads: [][]string{{"mine"}, {"ins a2m"}}, BoundQuick: 2, BoundThor: 3, ShardsQuick: 1, ShardsThor: 2},
-	{Name: "confirms||stable,current", Prefix: []string{"ins a1"}, Threads: [][]string{{"cf a1 1"}, {"stable", "current"}}, BoundQuick: 2, BoundThor: 3, ShardsQuick: 1, ShardsThor: 2},
-	{Name: "confirms||getconfirms", Prefix: []string{"ins a1"}, Threads: [][]string{{"cf a1 1"}, {"confirms a1"}}, BoundQuick: 2, BoundThor: 3, ShardsQuick: 1, ShardsThor: 1},
-	{Name: "confirms||top,account", Prefix: []string{"ins a1"}, Threads: [][]string{{"cf a1 1"}, {"top a1", "acct"}}, BoundQuick: 2, BoundThor: 3, ShardsQuick: 1, ShardsThor: 2},
+	{Name: "mine||insert", Prefix: []string{"pool", "ins a1"}, Threads: [][]string{{"mine"}, {"ins a2m"}}, BoundQuick: 2, BoundThor: 4, ShardsQuick: 1, ShardsThor: 2},
+	{Name: "confirms||stable,current", Prefix: []string{"ins a1"}, Threads: [][]string{{"cf a1 1"}, {"stable", "current"}}, BoundQuick: 2, BoundThor: 4, ShardsQuick: 1, ShardsThor: 2},
+	{Name: "confirms||getconfirms", Prefix: []string{"ins a1"}, Threads: [][]string{{"cf a1 1"}, {"confirms a1"}}, BoundQuick: 2, BoundThor: 4, ShardsQuick: 1, ShardsThor: 1},
+	{Name: "confirms||top,account", Prefix: []string{"ins a1"}, Threads: [][]string{{"cf a1 1"}, {"top a1", "acct"}}, BoundQuick: 2, BoundThor: 4, ShardsQuick: 1, ShardsThor: 2},
 	{Name: "batch-task||tryconfirm", Prefix: []string{"ins a1", "ins b1", "ins b2", "cf b2 0,1"}, Threads: [][]string{{"ins b3"}}, LastPrefixBG: true, BoundQuick: 2, BoundThor: 3, ShardsQuick: 4, ShardsThor: 8},
-	{Name: "confirms||confirms", Prefix: []string{"ins a1"}, Threads: [][]string{{"cf a1 1"}, {"cf a1 2"}}, BoundQuick: 2, BoundThor: 3, ShardsQuick: 2, ShardsThor: 2},
+	{Name: "confirms||confirms", Prefix: []string{"ins a1"}, Threads: [][]string{{"cf a1 1"}, {"cf a1 2"}}, BoundQuick: 2, BoundThor: 4, ShardsQuick: 2, ShardsThor: 2},
 	{Name: "insert||confirms-of-it", Prefix: []string{"ins a1"}, Threads: [][]string{{"ins a2"}, {"cf a2 0,2"}}, BoundQuick: 2, BoundThor: 3, ShardsQuick: 3, ShardsThor: 6},
-	{Name: "mine||confirms", Prefix: []string{"pool", "ins a1"}, Threads: [][]string{{"mine"}, {"cf a1 1"}}, BoundQuick: 2, BoundThor: 3, ShardsQuick: 2, ShardsThor: 2},
+	{Name: "mine||confirms", Prefix: []string{"pool", "ins a1"}, Threads: [][]string{{"mine"}, {"cf a1 1"}}, BoundQuick: 2, BoundThor: 4, ShardsQuick: 2, ShardsThor: 2},
 	{Name: "confirms||top30", Prefix: []string{"ins a1"}, Threads: [][]string{{"cf a1 1"}, {"top30"}}, BoundQuick: 2, BoundThor: 3, ShardsQuick: 2, ShardsThor: 3},
 	{Name: "confirms||blockat", Prefix: []string{"ins a1"}, Threads: [][]string{{"cf a1 1"}, {"blockat 1"}}, BoundQuick: 2, BoundThor: 3, ShardsQuick: 2, ShardsThor: 3},
-	{Name: "confirms||confirms-same-signer", Prefix: []string{"ins a1", "ins b1"}, Threads: [][]string{{"cf b1 0"}, {"cf b1 f0"}}, BoundQuick: 2, BoundThor: 3, ShardsQuick: 1, ShardsThor: 1},
-	{Name: "batch-task||confirms-for-stable-ancestor", Prefix: []string{"ins a1", "ins b1", "ins b2", "cf b2 0,1"}, Threads: [][]string{{"cf b1 0"}}, LastPrefixBG: true, BoundQuick: 2, BoundThor: 3, ShardsQuick: 2, ShardsThor: 2},
+	{Name: "confirms||confirms-same-signer", Prefix: []string{"ins a1", "ins b1"}, Threads: [][]string{{"cf b1 0"}, {"cf b1 f0"}}, BoundQuick: 2, BoundThor: 4, ShardsQuick: 1, ShardsThor: 1},
+	{Name: "batch-task||confirms-for-stable-ancestor", Prefix: []string{"ins a1", "ins b1", "ins b2", "cf b2 0,1"}, Threads: [][]string{{"cf b1 0"}}, LastPrefixBG: true, BoundQuick: 2, BoundThor: 4, ShardsQuick: 2, ShardsThor: 2},
 	{Name: "insert||confirms||getconfirms", Prefix: []string{"ins a1"}, Threads: [][]string{{"ins a2"}, {"cf a1 1"}, {"confirms a1"}}, BoundQuick: 1, BoundThor: 2, ShardsQuick: 3, ShardsThor: 8},
 }
 
